@@ -991,6 +991,8 @@ var corpus = []Replay{
 }
 
 func main() {
+	// time literals are printed and parsed in the local zone: pin it, the verdict must not depend on the host
+	time.Local = time.UTC
 	Main("C12", "C12K", func(c *Ctx) error {
 		var srv *Server
 		defer func() {
